@@ -109,5 +109,5 @@ def run(ctx):
     val = {"fill": 1, "layout": 2, "cfg": [3, 5, 1, 2, 4], "pick": 7}
     quick = ctx.tier == "quick"
     sys_ops = [n for n in set(names) if sched.OPS[n]["group"] in ("storage", "loop", "core")]
-    run_systematic(ctx, distinct_step_cases(ctx.shard, ctx.nshards, sys_ops, val, params=(0, 1) if quick else (0, 1, 2, 5, 7)), guarded(ctx, check_case), keep_one_in=(lambda c: 1 if sched.OPS[c["steps"][0][0]]["group"] == "storage" or c["steps"][0][0] in ("extract_subproc", "inline", "inline_window", "fission", "lift_scope", "unroll_loop") else 5) if quick else 1, label="template-single-steps", presharded=True)
+    run_systematic(ctx, distinct_step_cases(ctx.shard, ctx.nshards, sys_ops, val, params=(0, 1) if quick else (0, 1, 2, 3, 5, 7)), guarded(ctx, check_case), keep_one_in=(lambda c: 1 if sched.OPS[c["steps"][0][0]]["group"] == "storage" or c["steps"][0][0] in ("extract_subproc", "inline", "inline_window", "fission", "lift_scope", "unroll_loop") else 5) if quick else 1, label="template-single-steps", presharded=True)
     run_cases(ctx, strat, guarded(ctx, check_case), ctx.budget(640, 5120))
